@@ -22,6 +22,7 @@ and returns a scripted value (`driver.script[(kind, name)]`, an Exception instan
 The *reference* view of a shape (what SECoP + the property statement say about it, independent of the implementation):
 `reference(shape)` -> {'params': {attr: rec}, 'commands': {attr: rec}} with wire names, access mode, spec, limits, hooks.
 """
+import base64
 import json
 
 from vf.catalog import types as T, values as V
@@ -130,6 +131,33 @@ def reference(shape):
     for rec in params.values():
         rec['limits'] = sorted(n for n, r in params.items() if r.get('limit_of') == rec['name'])
     return {'params': params, 'commands': commands}
+
+
+def export_of(spec, r):
+    """wire form of an internal value, written from the SECoP rules (not frappy's export_value)"""
+    k = spec[0]
+    if k == 'double':
+        return float(r)
+    if k == 'int':
+        return int(r)
+    if k == 'scaled':
+        return round(r / spec[1])
+    if k == 'bool':
+        return bool(r)
+    if k == 'enum':
+        return int(getattr(r, 'value', r))
+    if k == 'string':
+        return str(r)
+    if k == 'blob':
+        return base64.b64encode(r).decode('ascii')
+    if k == 'array':
+        return [export_of(spec[1], e) for e in r]
+    if k == 'tuple':
+        return [export_of(m, e) for m, e in zip(spec[1], r)]
+    if k == 'struct':
+        members = dict(spec[1])
+        return {n: export_of(members[n], e) for n, e in r.items()}
+    raise ValueError(spec)
 
 
 # ----------------------------------------------------------------------------------------------
@@ -304,32 +332,34 @@ def shapes(tier):
         'name': 'GA', 'base': 'Writable', 'features': [],
         'levels': [
             {'params': [P('target', D010, 'rw_write', inherit=True, dflt=2),
-                        P('foo', I09, 'rw_write', dflt=2),
+                        P('foo', I09, 'rw_write', dflt=2, rfunc=True),
+                        P('value', ('double', -100.0, 100.0, None, None), 'ro', inherit=True, rfunc=True),
                         P('bar', ('int', -3, 3), 'rw_write', dflt=3),
-                        P('ramp', SC, 'rw_write', dflt=2)],
+                        P('ramp', SC, 'rw_write', dflt=2, unit='$/min')],
              'limits': ['target_min', 'target_max', 'foo_limits', 'ramp_max'],
              'checks': {'bar': {'op': 'gt', 'thr': 2}}},
-            {'params': [P('lvl', ('double', -5.0, 5.0, None, None), 'rw_nowrite', dflt=2)],
+            {'params': [P('lvl', ('double', -5.0, 5.0, None, None), 'rw_nowrite', dflt=2, unit='$')],
              'limits': ['lvl_min'],
              'checks': {'bar': {'op': 'lt', 'thr': -1}, 'foo': {'op': 'eq', 'thr': 5}}},
         ]}
     gb = {   # every kind of datatype x access mode x export mode, commands
         'name': 'GB', 'base': 'Module', 'features': ['HasGenA'],
         'levels': [
-            {'params': [P('s', S3, 'rw_write'), P('e', EN, 'rw_write', wret='same'), P('b', BO, 'rw_nowrite'),
-                        P('bl', BL, 'rw_write'), P('st', ST2, 'rw_write'), P('sto', STO, 'rw_nowrite'),
-                        P('arr', ARR, 'rw_write', wret='same'), P('tup', TUP, 'rw_write'),
+            {'params': [P('s', S3, 'rw_write', rfunc=True), P('e', EN, 'rw_write', wret='same', rfunc=True), P('b', BO, 'rw_nowrite'),
+                        P('bl', BL, 'rw_write', rfunc=True), P('st', ST2, 'rw_write'), P('sto', STO, 'rw_nowrite'),
+                        P('arr', ARR, 'rw_write', wret='same', rfunc=True), P('tup', TUP, 'rw_write'),
                         P('ro', I09, 'ro'), P('row', I09, 'ro_write'), P('c', I09, 'const', dflt=3),
-                        P('cs', S3, 'const', dflt=3),
+                        P('cs', S3, 'const', dflt=3), P('csc', SC, 'const', dflt=4),
                         P('hid', I09, 'rw_write', export=False), P('cus', I09, 'rw_write', export='custom'),
-                        P('cux', S3, 'rw_nowrite', export='_other')],
+                        P('cux', S3, 'rw_nowrite', export='_other'),
+                        P('sn', ('struct', (('a', I09), ('b', STO)), ('b',)), 'rw_write')],
              'commands': [C('cmd0'), C('cmdleaf', I09), C('cmdtup', TUP, result=I09), C('cmdst', STO, result=S3),
                           C('go'), C('cmdhid', I09, export=False), C('cmdcus', D010, export='customcmd')]},
         ]}
     gc = {   # drivable: scaled target with a limits pair, struct parameter with all members optional, two hook levels
         'name': 'GC', 'base': 'Drivable', 'features': ['HasGenA', 'HasGenB'],
         'levels': [
-            {'params': [P('target', SC, 'rw_write', inherit=True, dflt=2, wret='same'),
+            {'params': [P('target', SC, 'rw_write', inherit=True, dflt=2, wret='same', unit='$'),
                         P('value', SC, 'ro', inherit=True, rfunc=True),
                         P('sta', STA, 'rw_write'),
                         P('k', ('double', 0.0, 10.0, 0.5, None), 'rw_write', dflt=2)],
@@ -356,7 +386,7 @@ def shapes(tier):
             'levels': [
                 {'params': [P('aa', ('array', ('array', I09, 0, 2), 0, 2), 'rw_write'),
                             P('ts', ('tuple', (I09, ST2)), 'rw_write'),
-                            P('sn', ('struct', (('a', I09), ('b', STO)), ('b',)), 'rw_write'),
+                            P('sn2', ('struct', (('a', STA), ('b', I09)), None), 'rw_write'),
                             P('a0', ('array', I09, 0, 0), 'rw_write'),
                             P('ae', ('array', EN, 2, 2), 'rw_nowrite'),
                             P('cst', STO, 'const'), P('carr', ARR, 'const', dflt=1)],
